@@ -268,6 +268,9 @@ pub struct W3Run {
     pub faults_used: Vec<String>,
     /// restart a crashed station at this time (fresh station going online)
     pub restart_at: Vec<Option<i64>>,
+    /// the restart is set_online() on the SAME station object (it was taken down with set_offline()), not a
+    /// fresh station
+    pub soft_restart: Vec<bool>,
     /// forged telegrams: (index of the transmission after which it is injected, bytes); sent by the
     /// environment port one synchronisation pause after that transmission
     pub forged: Vec<(usize, Vec<u8>)>,
@@ -324,6 +327,7 @@ impl W3Run {
             horizon_us: cfg.horizon_us,
             faults_used: vec![],
             restart_at: vec![None; n],
+            soft_restart: vec![false; n],
             forged: vec![],
             forged_offers: vec![],
         }
@@ -406,7 +410,9 @@ impl W3Run {
                 Some(rt) if t >= rt => {
                     self.restart_at[i] = None;
                     self.crashed[i] = false;
-                    self.stations[i] = FdlActiveStation::new(self.cfg.params(sc.addr));
+                    if !self.soft_restart[i] {
+                        self.stations[i] = FdlActiveStation::new(self.cfg.params(sc.addr));
+                    }
                     self.stations[i].set_online();
                     { let u = t * self.bus.rate; self.c01.online_since.retain(|(a, _)| *a != sc.addr); self.c01.online_since.push((sc.addr, u)); }
                     self.bus.flush_port(i as u8, t);
